@@ -21,6 +21,7 @@ Oracle, from the answers the client really received (parsed independently) and t
  (iii) if, when the read finished, the answers showed a version newer than the best recoverable
        one, then no live server is left unqueried.
 """
+import gc
 import itertools
 
 from .. import boot, common, grid, lib_imm, lib_mut
@@ -277,6 +278,7 @@ def execute(case, prefix, seed):
 
 def chunk(tasks, seed, d_bound, max_exec):
     res = common.Result()
+    gc.freeze()      # forked worker: keep the collector off the pages inherited from the parent
     for case in tasks:
         gate = {}
 
@@ -352,7 +354,7 @@ def run(tier, seed):
     # (format, S, h, phase, d)
     if tier == "quick":
         plan = [(f, 4, 3, "read", 1) for f in ("SDMF", "MDMF")] + [("MDMF", 6, 2, "read-warm", 0), ("SDMF", 9, 2, "spread-warm", 0)]
-        plan += [(f, 4, 2, "publish", 1) for f in ("SDMF", "MDMF")] + [("SDMF", 4, 3, "publish", 0), ("MDMF", 5, 2, "publish", 0)]
+        plan += [("SDMF", 4, 2, "publish", 1), ("MDMF", 4, 2, "publish", 0), ("SDMF", 4, 3, "publish", 0), ("MDMF", 5, 2, "publish", 0)]
     else:
         plan = [(f, 4, 3, "read", 2) for f in ("SDMF", "MDMF")] + [("SDMF", 5, 4, "read-warm", 1), ("MDMF", 6, 4, "read-warm", 1)]
         plan += [("SDMF", 4, 6, "read", 1), ("MDMF", 5, 5, "read-warm", 0), ("SDMF", 6, 3, "read-warm", 1)]
